@@ -583,6 +583,13 @@ impl<'a> Gen<'a> {
                 s.items.push(Item { expr: e, alias: Some(a.clone()), window: None });
                 s.out.push(a);
             }
+            if self.cfg.dialect.is_none() && self.rng.chance(1, 10) {
+                // a binary value among the items: x'..' on MySQL / SQLite, '\x..' on Postgres
+                let t = self.rng.below(200) as u8;
+                let a = self.fresh("o");
+                s.items.push(Item { expr: X::Val(Value::Bytes(Some(Box::new(vec![t, 0, 7, 0xAB, 39])))), alias: Some(a.clone()), window: None });
+                s.out.push(a);
+            }
             // candidate ORDER BY keys that are expressions over the scope rather than output names
             for _ in 0..self.rng.below(3) {
                 let e = self.order_key_expr(&scope);
